@@ -34,11 +34,15 @@ def showMatrix (rows : List (List Rat)) : String :=
 
 def pick (a b : α) (directed : Bool) : α := if directed then a else b
 
-/-- the positive entries as a graph: `v ∈ adj u` iff `A[u, v] > 0` -/
-def posAdj (m : Mat) : Nat → List Nat :=
-  let rows : Array (List Nat) := (Array.range m.nRow).map fun i =>
-    (List.range m.nCol).filter fun j => decide (0 < m.val i j)
-  fun i => rows.getD i []
+/-- the positive entries as a graph: `v ∈ adj u` iff `A[u, v] > 0` (rows materialised once) -/
+def posRows (m : Mat) : Array (List Nat) :=
+  (Array.range m.nRow).map fun i => (List.range m.nCol).filter fun j => decide (0 < m.val i j)
+
+def adjOf (rows : Array (List Nat)) : Nat → List Nat := fun i => rows.getD i []
+
+/-- the graph reachability is computed on: the graph itself (strong) or its symmetrisation (weak), materialised -/
+def connGraph (n : Nat) (adj : Nat → List Nat) (strong : Bool) : Array (List Nat) :=
+  if strong then (Array.range n).map adj else (Array.range n).map (weakAdj n adj)
 
 /-- the graph the connectivity functions are about: the matrix itself, or the block form of a biadjacency -/
 def specGraph (m : Mat) (forceBipartite : Bool) : Mat × Bool :=
@@ -118,7 +122,8 @@ def handle : Handler
       let mt ← mat? n m ip ix dt
       let labels ← natList? labels
       let ncc ← ncc.toNat?
-      match isLabellingB mt.nRow mt.adj (← bool? strong) labels with
+      let cg := connGraph mt.nRow mt.adj (← bool? strong)
+      match isLabellingOn mt.nRow (adjOf cg) labels with
       | none => some "fuel"
       | some ok => some (answer (ok && (npUnique labels).length == ncc) "not-the-components")) "bad-args"
   -- ---------------------------------------------------------------- spec lines
@@ -126,7 +131,9 @@ def handle : Handler
       let mt ← mat? n m ip ix dt
       let labels ← natList? labels
       let (g, _) := specGraph mt (← bool? fb)
-      match isLabellingB g.nRow (posAdj g) (← bool? strong) labels with
+      let rows := posRows g
+      let cg := connGraph g.nRow (adjOf rows) (← bool? strong)
+      match isLabellingOn g.nRow (adjOf cg) labels with
       | none => some "fuel"
       | some ok => some (answer ok "labels-are-not-the-components")) "bad-args"
   | "c12.spec_connected", [n, m, ip, ix, dt, strong, fb, ans] => some <| Option.getD (do
@@ -134,8 +141,9 @@ def handle : Handler
       let ans ← bool? ans
       let strong ← bool? strong
       let (g, _) := specGraph mt (← bool? fb)
-      let adj := posAdj g
-      match reachMatrix g.nRow (if strong then adj else weakAdj g.nRow adj) with
+      let rows := posRows g
+      let cg := connGraph g.nRow (adjOf rows) strong
+      match reachMatrix g.nRow (adjOf cg) with
       | none => some "fuel"
       | some rm =>
         let conn := g.nRow > 0 && (List.range g.nRow).all fun u => (List.range g.nRow).all fun v =>
@@ -147,8 +155,9 @@ def handle : Handler
       let matrix ← ratListList? matrix
       let strong ← bool? strong
       let (g, bip) := specGraph mt (← bool? fb)
-      let adj := posAdj g
-      match reachMatrix g.nRow (if strong then adj else weakAdj g.nRow adj) with
+      let rows := posRows g
+      let cg := connGraph g.nRow (adjOf rows) strong
+      match reachMatrix g.nRow (adjOf cg) with
       | none => some "fuel"
       | some rm =>
         let comps := componentsOf g.nRow rm
@@ -167,7 +176,8 @@ def handle : Handler
   | "c12.spec_bip", [n, m, ip, ix, dt, ans, rows, cols, biadj] => some <| Option.getD (do
       let mt ← mat? n m ip ix dt
       let ans ← bool? ans
-      let adj := posAdj mt
+      let prow := posRows mt
+      let adj := adjOf prow
       let loops := (List.range mt.nRow).any fun u => (adj u).contains u
       let want := !loops && twoColourableB mt.nRow adj
       if ans != want then some s!"fails bipartite={want}"
@@ -187,7 +197,8 @@ def handle : Handler
       let mt ← mat? n m ip ix dt
       let ans ← bool? ans
       let directed := (← optBool? directed).getD (!symmetricB mt)
-      let adj := posAdj mt
+      let rows := posRows mt
+      let adj := adjOf rows
       match (if directed then hasCycleB mt.nRow adj else hasUndirectedCycleB mt.nRow adj) with
       | none => some "fuel"
       | some cyc => some (answer (ans == !cyc) s!"has-cycle={cyc}")) "bad-args"
@@ -195,7 +206,8 @@ def handle : Handler
       let mt ← mat? n m ip ix dt
       let cycles ← natListList? cycles
       let directed := (← optBool? directed).getD (!symmetricB mt)
-      let adj := posAdj mt
+      let rows := posRows mt
+      let adj := adjOf rows
       let genuine := cycles.all fun c => decide (IsSimpleCycle mt.nRow adj directed c)
       let idx := List.range cycles.length
       let distinct := idx.all fun i => idx.all fun j =>
@@ -215,8 +227,10 @@ def handle : Handler
       let out ← mat? on om oip oix odt
       let root ← natList? root
       let directed := (← optBool? directed).getD (!symmetricB mt)
-      let adj := posAdj mt
-      let oadj := posAdj out
+      let rows := posRows mt
+      let adj := adjOf rows
+      let orows := posRows out
+      let oadj := adjOf orows
       let k := mt.nRow
       let shape := out.nRow == k && out.nCol == k
       -- a subgraph: every entry of the result is 0 or the entry of the input, and it is not negative
@@ -225,7 +239,8 @@ def handle : Handler
       let sym := directed || symmetricB out
       match (if directed then hasCycleB k oadj else hasUndirectedCycleB k oadj), reachMatrix k adj, reachMatrix k oadj with
       | some cyc, some rm, some orm =>
-        let keeps := root.all fun r => (List.range k).all fun v => reachB rm r v == reachB orm r v
+        -- reachable from the root (from some root, when several are given) before = after
+        let keeps := (List.range k).all fun v => (root.any fun r => reachB rm r v) == (root.any fun r => reachB orm r v)
         some (answer (shape && sub && sym && !cyc && keeps)
           s!"shape={shape} subgraph={sub} symmetric={sym} acyclic={!cyc} reach-kept={keeps}")
       | _, _, _ => some "fuel") "bad-args"
